@@ -458,8 +458,9 @@ def worker(payload):
                         known(o3, "D8b:keyword-given-positional-beyond-an-omitted-one", wit)
                     else:
                         o3["viol"].append({"law": "selected method did not receive exactly the supplied arguments", "expected": expected, "received": received, **wit})
-            elif ok[0] in ("bind", "nomethod") and regs:
-                # not rejected: some registered method accepts the call under the documented rules
+            elif ok[0] in ("bind", "nomethod", "raised", "exc") and regs and not b.get("raw"):
+                # not rejected (and no stray exception out of the dispatch machinery before any body ran): some
+                # registered method accepts the call under the documented rules
                 acc = [x for x in (sc["defs"][t] for t in regs) if doc_accepts(sc, regs, x, op[1], op[2], fw)]
                 if acc:
                     o3["n"] += 1
